@@ -91,6 +91,10 @@ func (s *Streamer) Stream(ctx context.Context, sendTransaction SendTransactionFu
 
 //Error 每次使用Stream后需要检测Error
 func (s *Streamer) Error() error {
+	// No connection was ever established: there is nothing to report.
+	if s.errChan == nil {
+		return nil
+	}
 	select {
 	case err, ok := <-s.errChan:
 		if ok {
